@@ -29,6 +29,29 @@ theorem options_roundtrip (os : Opts) (hne : os ≠ []) (h : optsWF os) (rest : 
     parseOptions (optionsBytes os ++ rest) = .ok os :=
   parseOptions_roundtrip os h rest (fun h0 => absurd h0 hne)
 
+/-- the chain is a function of the option VALUES by POSITION: every option in front of the last one is
+written with the continuation bit and the last one without — also when the last option equals (in
+Python: IS) one of the earlier ones.  `optionsCont` writes `cmd | 0x80, len, data` for every entry -/
+theorem options_position_not_identity (pre : Opts) (o : Nat × Bytes) :
+    optionsBytes (pre ++ [o]) = optionsCont pre ++ ([o.1, o.2.length] ++ o.2) := by
+  rw [optionsBytes_append pre [o] (by simp)]
+  obtain ⟨c, d⟩ := o
+  simp [optionsBytes]
+
+/-- one option named `n + 1` times (the same list entry again and again; any `n`: 1 000, 20 000 … there
+is no bound in the model): the chain occupies `(n + 1)(2 + len)` octets and is read back whole -/
+theorem options_replicate (o : Nat × Bytes) (n : Nat) (ho : o.1 ∈ hstrpOptionValues ∧ o.2.length < 256)
+    (rest : Bytes) :
+    parseOptions (optionsBytes (List.replicate (n + 1) o) ++ rest) = .ok (List.replicate (n + 1) o)
+      ∧ (optionsBytes (List.replicate (n + 1) o)).length = (n + 1) * (2 + o.2.length) := by
+  refine ⟨parseOptions_roundtrip _ (fun x hx => by rw [List.eq_of_mem_replicate hx]; exact ho) rest
+    (fun h0 => by simp [List.replicate_succ] at h0), ?_⟩
+  rw [← optionsLen_eq]
+  obtain ⟨c, d⟩ := o
+  induction n with
+  | zero => simp [optionsLen]
+  | succ k ih => rw [List.replicate_succ, optionsLen, ih]; simp only []; rw [Nat.succ_mul (k + 1)]; omega
+
 /-- HDAP (or nothing) in HSTRP: any packet type bits, any version, `sn < 65536`, any consistent option
 list -/
 theorem hstrp_wrap (ver sn : Nat) (t : PktType) (os : Opts) (pl : Option Pdu) (hsn : sn < 65536)
@@ -82,6 +105,8 @@ example : Hstrp.asBytes ⟨0, ⟨true, false, false, false, false, false⟩, 1, 
     some (.rrs ⟨false, rrsRadioRegistrationRequest, ⟨10, 100⟩, 0, 1, 0⟩)⟩
     = .ok [0x32, 0x42, 0x00, 0x20, 0x00, 0x01, 0x83, 0x04, 0x00, 0x01, 0x86, 0x9f, 0x04, 0x01, 0x02,
            0x11, 0x00, 0x03, 0x00, 0x04, 0x0a, 0x00, 0x00, 0x64, 0xbd, 0x03] := by decide +kernel
+/-- the same option first and last: the first occurrence keeps its continuation bit -/
+example : optionsBytes [(1, []), (4, [2]), (1, [])] = [0x81, 0, 0x84, 1, 2, 0x01, 0] := by decide
 /-- a heartbeat without options and payload is consistent as well -/
 example : Consistent ⟨false, false, false, false, true, false⟩ [] none := by decide
 
